@@ -190,14 +190,35 @@ func (e *Engine) scanInit() {
 			continue
 		}
 		tmp := map[*ssa.Global]map[int64]int64{}
+		lits := map[*ssa.Alloc]map[int64]int64{}
 		for _, b := range init.Blocks {
 			for _, in := range b.Instrs {
 				st, ok := in.(*ssa.Store)
 				if !ok {
 					continue
 				}
+				// *global = *complit
+				if g, ok := st.Addr.(*ssa.Global); ok {
+					if ld, ok := st.Val.(*ssa.UnOp); ok && ld.Op == token.MUL {
+						if al, ok := ld.X.(*ssa.Alloc); ok && lits[al] != nil {
+							tmp[g] = lits[al]
+						}
+					}
+					continue
+				}
 				ia, ok := st.Addr.(*ssa.IndexAddr)
 				if !ok {
+					continue
+				}
+				if al, ok := ia.X.(*ssa.Alloc); ok {
+					ic, ok1 := ia.Index.(*ssa.Const)
+					vc, ok2 := st.Val.(*ssa.Const)
+					if ok1 && ok2 && vc.Value != nil && vc.Value.Kind() == constant.Int {
+						if lits[al] == nil {
+							lits[al] = map[int64]int64{}
+						}
+						lits[al][ic.Int64()] = vc.Int64()
+					}
 					continue
 				}
 				g, ok := ia.X.(*ssa.Global)
@@ -226,6 +247,25 @@ func (e *Engine) scanInit() {
 				vals[i] = m[int64(i)]
 			}
 			e.globalArrays[g] = vals
+		}
+	}
+	// a table that any other function writes is not a constant
+	for _, fn := range e.funcs {
+		if fn.Name() == "init" {
+			continue
+		}
+		for _, b := range fn.Blocks {
+			for _, in := range b.Instrs {
+				if st, ok := in.(*ssa.Store); ok {
+					root := st.Addr
+					if ia, ok := root.(*ssa.IndexAddr); ok {
+						root = ia.X
+					}
+					if g, ok := root.(*ssa.Global); ok {
+						delete(e.globalArrays, g)
+					}
+				}
+			}
 		}
 	}
 }
@@ -446,7 +486,20 @@ func (e *Engine) directFrame(f *ssa.Function, fs *frameSet) {
 		return
 	}
 	if ct := e.contracts.Funcs[fnKey(f, e.home)]; ct != nil && ct.HasMod {
+		// an explicit modifies clause (verified against the body) is the function's frame
 		e.rawModifies(ct, fs)
+		ok := true
+		for _, m := range ct.Modifies {
+			if m == "*" || strings.HasPrefix(m, "$") {
+				continue
+			}
+			if !e.staticFieldKeys(f, m, fs.keys) {
+				ok = false
+			}
+		}
+		if ok {
+			return
+		}
 	}
 	cells := map[*ssa.Alloc]bool{}
 	for _, b := range f.Blocks {
@@ -594,10 +647,33 @@ func (e *Engine) rawModifies(ct *Contract, out *frameSet) {
 			}
 			out.keys["ghost|"+name] = srt
 		} else if strings.HasPrefix(m, "$") {
+			found := false
 			for k, s := range knownHeapKeys {
 				if strings.HasPrefix(k, m[1:]) {
 					out.keys[k] = s
+					found = true
 				}
+			}
+			if !found {
+				// "$pkg.Type." or "$pkg.Type.field": fields of a struct type of the package
+				parts := strings.Split(strings.TrimSuffix(m[1:], "."), ".")
+				for _, hp := range e.pkgs {
+					if len(parts) >= 2 && hp.Types.Name() == parts[0] {
+						if o := hp.Types.Scope().Lookup(parts[1]); o != nil {
+							if stt, skey := structOf(o.Type()); stt != nil {
+								for i := 0; i < stt.NumFields(); i++ {
+									if len(parts) == 2 || stt.Field(i).Name() == parts[2] {
+										e.fieldKeys(stt, skey, i, out.keys)
+										found = true
+									}
+								}
+							}
+						}
+					}
+				}
+			}
+			if !found {
+				fmt.Fprintf(os.Stderr, "govc: modifies entry %q of %s matches no heap location\n", m, ct.Key)
 			}
 		}
 	}
@@ -798,4 +874,55 @@ func (e *Engine) ifaceKey(t types.Type, method string) string {
 		return p.Path()
 	})
 	return "(" + s + ")." + method
+}
+
+// staticFieldKeys resolves a modifies path such as "w.rw.endWritten" against the parameter types.
+func (e *Engine) staticFieldKeys(f *ssa.Function, path string, keys map[string]Sort) bool {
+	parts := strings.Split(strings.TrimSpace(path), ".")
+	if len(parts) < 2 {
+		return false
+	}
+	var cur types.Type
+	for _, p := range f.Params {
+		if p.Name() == parts[0] {
+			cur = p.Type()
+		}
+	}
+	if cur == nil {
+		return false
+	}
+	for n, name := range parts[1:] {
+		obj, index, _ := types.LookupFieldOrMethod(cur, true, f.Pkg.Pkg, name)
+		fv, ok := obj.(*types.Var)
+		if !ok || !fv.IsField() {
+			return false
+		}
+		for k, i := range index {
+			stt, skey := structOf(cur)
+			if stt == nil {
+				return false
+			}
+			if n == len(parts)-2 && k == len(index)-1 {
+				e.fieldKeys(stt, skey, i, keys)
+				return true
+			}
+			cur = stt.Field(i).Type()
+		}
+	}
+	return false
+}
+
+// onlyRefImplementers: interface types of the package whose values always box a pointer or an
+// empty struct (so the payload is a reference, never a negative integer).
+func (e *Engine) onlyRefImplementers(t types.Type) bool {
+	n, ok := t.(*types.Named)
+	if !ok {
+		return false
+	}
+	switch n.Obj().Pkg() {
+	case nil:
+		return false
+	}
+	p := n.Obj().Pkg().Path()
+	return e.homes[n.Obj().Pkg()] || p == "io" || p == "net/http"
 }
